@@ -43,11 +43,31 @@ class C13(Prop):
                           for nm in case["names"]])
             keys = [[nm, sorted(list(k) for k in m.excess_degree_keys[nm])] for nm in case["names"]]
             tn = list(m.topology_names)
+        # the result of an extraction belongs to its extractor and its network: another extractor, built afterwards for another
+        # network with the same topology names, changes neither what was returned nor what this extractor returns next
+        import copy
+        held = m
+        snap = (sorted(map(repr, held.excess_degree_keys)), [[repr(nm), sorted(list(k) for k in held.excess_degree_keys[nm])] for nm in case["names"]],
+                [[repr(nm), sorted([list(k), repr(v)] for k, v in held.ejks[nm].items())] for nm in case["names"]])
+        other = copy.deepcopy({k: case[k] for k in ("jd", "edges", "names")})
+        other["jd"] = [[v, [x + 1 for x in row]] for v, row in other["jd"]]
+        try:
+            JointExcessJointDegree({TN.NETWORK: netgen.build_graph(other), TN.EDGE_NAMES: list(case["names"])}).get_ejks()
+        except Exception:
+            pass
+        snap2 = (sorted(map(repr, held.excess_degree_keys)), [[repr(nm), sorted(list(k) for k in held.excess_degree_keys[nm])] for nm in case["names"]],
+                 [[repr(nm), sorted([list(k), repr(v)] for k, v in held.ejks[nm].items())] for nm in case["names"]])
+        m3 = ext.get_ejks()
+        again = [[nm, sorted([list(k), rs(recover(v, 2 * max(1, E[nm])))] for k, v in m3.ejks[nm].items())] for nm in case["names"]]
+        keys3 = [[nm, sorted(list(k) for k in m3.excess_degree_keys[nm])] for nm in case["names"]]
+        independent = (snap == snap2 and again == calls[0] and keys3 == keys)
+        key_names = sorted(map(repr, m.excess_degree_keys))
         ov = JointExcessDegree.get_ejk(G)
         from gcmpy.names.network_names import NetworkNames as NN
         untouched = all(list(G.nodes[v][NN.JOINT_DEGREE]) == list(row) for v, row in case["jd"]) and \
             sorted(G.nodes()) == sorted(v for v, _ in case["jd"]) and G.number_of_edges() == len({frozenset(e[:2]) for e in case["edges"]})
         return {"network_untouched": untouched, "calls": calls, "excess_keys": keys, "topology_names": tn,
+                "independent_of_other_extractors": independent, "excess_key_names": key_names,
                 "overall": sorted([list(k), rs(recover(v, 2 * len(case["edges"])))] for k, v in ov.items())}
 
     def request(self, case, obs):
@@ -68,6 +88,12 @@ class C13(Prop):
         f = []
         if not obs["network_untouched"]:
             f.append("network-mutated: extracting the matrices changed the network's annotations (or its vertices / edges)")
+        if not obs.get("independent_of_other_extractors", True):
+            f.append("not-repeatable: after another extractor was used on another network, the matrices or excess keys already "
+                     "returned by this one (or returned by its next call) are different")
+        if obs.get("excess_key_names") is not None and obs["excess_key_names"] != sorted(repr(nm) for nm in case["names"]):
+            f.append(f"excess-keys: excess_degree_keys lists topologies {obs['excess_key_names']}, the network was extracted for "
+                     f"{sorted(map(repr, case['names']))}")
         first = obs["calls"][0]
         for n, call in enumerate(obs["calls"][1:], 2):
             if call != first:
